@@ -192,6 +192,10 @@ pub struct Cell {
     /// `RtcConfiguration::runtime_handle` = Some(handle of the endpoint's runtime) instead of None
     #[serde(default)]
     pub rt_handle: bool,
+    /// WebRtc: ICE TCP configuration of both endpoints. 0 none; 1 tcp port range + default policy (Disabled);
+    /// 2 range + Enabled; 3 range + PassiveOnly; 4 single-port range + default policy; 5 single-port range + Enabled
+    #[serde(default)]
+    pub ice_tcp: u8,
     /// Rtp / Srtp modes: `sdp_compatibility = LegacySip` (no a=mid, no BUNDLE, no rtcp-mux: RTCP on port + 1)
     #[serde(default)]
     pub legacy_sip: bool,
@@ -627,6 +631,11 @@ fn rewrite_sdp(desc: &SessionDescription, mode: Mode, face_for_peer: SocketAddr)
         if mode == Mode::WebRtc {
             if let Some(rest) = line.strip_prefix("a=candidate:") {
                 let mut tok: Vec<String> = rest.split_whitespace().map(|s| s.to_string()).collect();
+                if tok.len() >= 8 && tok[2].eq_ignore_ascii_case("tcp") {
+                    // TCP candidates are not handed to the peer: every path between the two goes through the
+                    // UDP proxy (their sockets are still covered by the socket oracle)
+                    continue;
+                }
                 if tok.len() >= 8 {
                     let ip: IpAddr = tok[4].parse().map_err(|e| format!("candidate ip: {e}"))?;
                     let port: u16 = tok[5].parse().map_err(|e| format!("candidate port: {e}"))?;
@@ -752,6 +761,8 @@ struct Node {
     blocked_sends: Vec<Pending>,
     /// every local transport address a description of this endpoint advertised (RTP, non-muxed RTCP)
     advertised: Vec<SocketAddr>,
+    /// every TCP address the endpoint may have bound (its configured port range on its address)
+    tcp_probe: Vec<SocketAddr>,
     /// a transport was attached before the event (sender / receiver loops run from then on)
     transport_started: bool,
     /// the endpoint's runtime has been shut down (caller context 2)
@@ -774,6 +785,19 @@ struct NodeOpts {
     blocked: bool,
     legacy_sip: bool,
     rt_handle: bool,
+    ice_tcp: u8,
+}
+
+const TCP_RANGE: (u16, u16) = (42000, 42005);
+const TCP_SINGLE: u16 = 42100;
+
+/// the TCP port range the endpoint is configured with (its address is unique, so every cell can use the same)
+fn tcp_range(ice_tcp: u8) -> Option<(u16, u16)> {
+    match ice_tcp {
+        1..=3 => Some(TCP_RANGE),
+        4 | 5 => Some((TCP_SINGLE, TCP_SINGLE)),
+        _ => None,
+    }
 }
 
 fn panic_text(p: Box<dyn std::any::Any + Send>) -> String {
@@ -827,6 +851,15 @@ impl Node {
         if opts.rt_handle {
             cfg.runtime_handle = Some(h.clone());
         }
+        if let Some((a, b)) = tcp_range(opts.ice_tcp) {
+            cfg.tcp_port_range_start = Some(a);
+            cfg.tcp_port_range_end = Some(b);
+            cfg.ice_tcp_policy = match opts.ice_tcp {
+                2 | 5 => rustrtc::config::IceTcpPolicy::Enabled,
+                3 => rustrtc::config::IceTcpPolicy::PassiveOnly,
+                _ => rustrtc::config::IceTcpPolicy::Disabled,
+            };
+        }
         let pc = match call(&h, Duration::from_secs(5), async move { PeerConnection::new(cfg) }).await {
             CallRes::Done(pc, _) => pc,
             CallRes::Hang => return Err("PeerConnection::new hangs".into()),
@@ -847,6 +880,7 @@ impl Node {
             wfc: None,
             blocked_sends: Vec::new(),
             advertised: Vec::new(),
+            tcp_probe: tcp_range(opts.ice_tcp).map(|(a, b)| (a..=b).map(|p| SocketAddr::new(IpAddr::V4(ip), p)).collect()).unwrap_or_default(),
             transport_started: false,
             dead_rt: false,
             media: None,
@@ -1242,8 +1276,8 @@ async fn reach_phase(cell: &Cell, out: &mut Outcome) -> Result<PairRig, String> 
         stun_hole = Some(s);
     }
     let legacy = cell.legacy_sip && mode != Mode::WebRtc;
-    let o = Node::new_opts(0, mode, hole_addr, NodeOpts { blocked: cell.blocked && subject == 0, legacy_sip: legacy, rt_handle: cell.rt_handle && subject == 0 }).await?;
-    let n = Node::new_opts(1, mode, None, NodeOpts { blocked: cell.blocked && subject == 1, legacy_sip: legacy, rt_handle: cell.rt_handle && subject == 1 }).await?;
+    let o = Node::new_opts(0, mode, hole_addr, NodeOpts { blocked: cell.blocked && subject == 0, legacy_sip: legacy, rt_handle: cell.rt_handle && subject == 0, ice_tcp: cell.ice_tcp }).await?;
+    let n = Node::new_opts(1, mode, None, NodeOpts { blocked: cell.blocked && subject == 1, legacy_sip: legacy, rt_handle: cell.rt_handle && subject == 1, ice_tcp: cell.ice_tcp }).await?;
     let mut rig = PairRig { proxy, o, n, _stun_hole: stun_hole };
 
     // what the session carries
@@ -1664,6 +1698,9 @@ async fn after_calls(cell: &Cell, node: &Node, out: &mut Outcome, terminal: bool
             CallRes::Panic(p) => out.fail(cell, &format!("{name}-panics"), false, format!("{name}() panicked: {p}")),
         }
     }
+    if node.state() == PeerConnectionState::Closed {
+        api_sweep(cell, node, out, "after the connection reported Closed").await;
+    }
     // recv() after the event: only when no earlier recv() is still parked on the event queue
     let pump_done = node.pump.as_ref().map(|p| p.finished().is_some()).unwrap_or(true);
     if pump_done && node.state() == PeerConnectionState::Closed {
@@ -1676,8 +1713,110 @@ async fn after_calls(cell: &Cell, node: &Node, out: &mut Outcome, terminal: bool
     }
 }
 
+/// Every public API of the PeerConnection and of the handles reachable through it that can wait, issued on
+/// a connection that has ended; each must return (Ok or Err) within 2 s.
+async fn api_sweep(cell: &Cell, node: &Node, out: &mut Outcome, stage: &str) {
+    use rustrtc::media::MediaStreamTrack;
+    let Some(pc) = node.pc.clone() else { return };
+    let h = node.api();
+    let ch = node.chans.lock().first().map(|c| c.id).unwrap_or(0);
+    let mut calls: Vec<(String, JoinHandle<()>)> = Vec::new();
+    macro_rules! go {
+        ($name:expr, $pc:ident, $body:expr) => {{
+            let $pc = pc.clone();
+            calls.push(($name.to_string(), h.spawn(async move {
+                let _ = $body;
+            })));
+        }};
+    }
+    go!("wait_for_gathering_complete", p, p.wait_for_gathering_complete().await);
+    go!("wait_for_connected", p, p.wait_for_connected().await);
+    go!("create_offer", p, p.create_offer().await);
+    go!("create_answer", p, p.create_answer().await);
+    go!("set_local_description", p, {
+        if let Some(d) = p.local_description() {
+            let _ = p.set_local_description(d);
+        }
+    });
+    go!("set_remote_description", p, {
+        if let Some(d) = p.remote_description() {
+            let _ = p.set_remote_description(d).await;
+        }
+    });
+    go!("add_ice_candidate", p, p.add_ice_candidate(rustrtc::IceCandidate::host("127.0.0.1:9".parse().unwrap(), 1)));
+    go!("send_data", p, p.send_data(ch, b"sweep").await);
+    go!("send_text", p, p.send_text(ch, "sweep").await);
+    go!("get_stats", p, p.get_stats().await);
+    go!("get_transport_stats", p, p.get_transport_stats().await);
+    go!("wait_for_rtp_transport_ready", p, p.wait_for_rtp_transport_ready(Duration::from_millis(100)).await);
+    go!("send_raw_rtp", p, p.send_raw_rtp(rustrtc::rtp::RtpPacket::new(rustrtc::rtp::RtpHeader::new(0, 1, 160, 0x1234), vec![0u8; 20])).await);
+    go!("sync-getters", p, {
+        let _ = (p.sctp_buffered_amount(), p.sctp_diagnostic_info(), p.sctp_link_stats().is_some(), p.signaling_state(), p.local_description().is_some(), p.remote_description().is_some(), p.disconnect_reason(), p.received_rtp_packets(), p.get_transceivers().len());
+    });
+    go!("create_data_channel", p, p.create_data_channel("sweep", None).map(|_| ()));
+    let pump_done = node.pump.as_ref().map(|p| p.finished().is_some()).unwrap_or(true);
+    if pump_done {
+        go!("recv", p, p.recv().await.is_some());
+    }
+    for (i, t) in pc.get_transceivers().into_iter().enumerate() {
+        if let Some(r) = t.receiver() {
+            let (r1, r2, r3) = (r.clone(), r.clone(), r.clone());
+            calls.push((format!("transceiver{i}.receiver.track.recv"), h.spawn(async move {
+                let _ = r1.track().recv().await;
+            })));
+            calls.push((format!("transceiver{i}.receiver.request_key_frame"), h.spawn(async move {
+                let _ = r2.request_key_frame().await;
+            })));
+            calls.push((format!("transceiver{i}.receiver.send_nack"), h.spawn(async move {
+                let _ = r3.send_nack(vec![1, 2]).await;
+            })));
+        }
+    }
+    // a fresh recv() on every channel whose earlier recv() has returned for good
+    let ended: Vec<Arc<DataChannel>> = node.chans.lock().iter().filter(|c| c.count(DcEv::End) > 0).map(|c| c.dc.clone()).collect();
+    for (i, dc) in ended.into_iter().enumerate() {
+        calls.push((format!("channel{i}.recv"), h.spawn(async move {
+            let _ = dc.recv().await;
+        })));
+    }
+    let n = calls.len();
+    let limit = Instant::now() + LOCAL_BOUND;
+    while calls.iter().any(|(_, j)| !j.is_finished()) && Instant::now() < limit {
+        tokio::time::sleep(Duration::from_millis(5)).await;
+    }
+    let mut hung = Vec::new();
+    for (name, j) in calls {
+        if !j.is_finished() {
+            j.abort();
+            hung.push(name);
+        } else if let Err(e) = j.await {
+            if e.is_panic() {
+                out.fail(cell, &format!("api-call-panics-after-close:{name}"), false, format!("{name}() panicked on a connection that had ended ({stage})"));
+            }
+        }
+    }
+    out.notes.push(format!("api sweep {stage}: {n} calls, {} pending", hung.len()));
+    out.labels.push("api-sweep".into());
+    for name in hung {
+        out.fail(cell, &format!("api-call-hangs-after-close:{name}"), true, format!("{name}() issued {stage} (state {:?}) is still pending after 2 s", node.state()));
+    }
+}
+
+/// F16: the only thing left is the process-wide shared listener of the single-port range (and its accept task)
+fn only_shared_listener(cell: &Cell, ip: Ipv4Addr, socks: &[String], busy: &[String], extra_tasks: usize) -> bool {
+    let l = format!("tcp:{}:{}", ip, TCP_SINGLE);
+    let b = format!("tcp {}:{}", ip, TCP_SINGLE);
+    let c = format!("cannot rebind tcp {}:{}", ip, TCP_SINGLE);
+    cell.ice_tcp >= 4 && extra_tasks <= 1 && (!socks.is_empty() || !busy.is_empty()) && socks.iter().all(|s| *s == l || *s == c) && busy.iter().all(|s| *s == b)
+}
+
 fn rebind_failures(addrs: &[SocketAddr]) -> Vec<SocketAddr> {
     addrs.iter().copied().filter(|a| std::net::UdpSocket::bind(a).is_err()).collect()
+}
+
+/// TCP addresses that cannot be bound (listened on) again
+fn tcp_rebind_failures(addrs: &[SocketAddr]) -> Vec<String> {
+    addrs.iter().filter(|a| std::net::TcpListener::bind(a).is_err()).map(|a| format!("tcp {a}")).collect()
 }
 
 /// tasks of the harness itself that still run on the endpoint's runtime
@@ -1707,18 +1846,22 @@ async fn held_handle_release(cell: &Cell, node: &Node, out: &mut Outcome) {
     };
     drop(pc);
     let t = Instant::now();
+    let tcp = node.tcp_probe.clone();
     let ok = wait_until(LOCAL_BOUND, || {
-        sockets_on(ip).is_empty() && rebind_failures(&adv).is_empty() && h.metrics().num_alive_tasks().saturating_sub(own_tasks(node)) <= objects
+        sockets_on(ip).is_empty() && rebind_failures(&adv).is_empty() && tcp_rebind_failures(&tcp).is_empty() && h.metrics().num_alive_tasks().saturating_sub(own_tasks(node)) <= objects
     })
     .await;
     let tasks = h.metrics().num_alive_tasks().saturating_sub(own_tasks(node));
     let socks = sockets_on(ip);
-    let busy = rebind_failures(&adv);
+    let mut busy: Vec<String> = rebind_failures(&adv).into_iter().map(|a| format!("udp {a}")).collect();
+    busy.extend(tcp_rebind_failures(&tcp));
     out.notes.push(format!("held: {} task(s) left ({} sender/receiver object(s)), sockets {:?}, advertised {} port(s), settled in {} ms", tasks, objects, socks, adv.len(), t.elapsed().as_millis()));
     out.labels.push(format!("held-tasks:{}", tasks.min(9)));
-    if !ok {
+    if !ok && only_shared_listener(cell, ip, &socks, &busy, tasks.saturating_sub(objects)) {
+        out.fail_global(SIG_F16, true, format!("2 s after close(), with the handle still held, the shared TCP listener of the single-port range is still bound: sockets {socks:?}, cannot bind again {busy:?}, {} extra task(s) [{}]", tasks.saturating_sub(objects), cell.coord()));
+    } else if !ok {
         if !socks.is_empty() || !busy.is_empty() {
-            out.fail(cell, "sockets-held-after-close", true, format!("2 s after close(), with the handle still held: sockets {socks:?}, advertised ports that cannot be bound again {busy:?}"));
+            out.fail(cell, "sockets-held-after-close", true, format!("2 s after close(), with the handle still held: sockets {socks:?}, addresses that cannot be bound again {busy:?}"));
         }
         if tasks > objects {
             out.fail(cell, "tasks-held-after-close", true, format!("2 s after close(), with the handle still held, {tasks} task(s) of the connection are alive but only {objects} sender/receiver object(s) exist"));
@@ -1763,16 +1906,20 @@ async fn release_node(cell: &Cell, mut node: Node, who: &str, out: &mut Outcome)
     let ip = node.ip;
     let t = Instant::now();
     let adv = node.advertised.clone();
-    let ok = wait_until(LOCAL_BOUND, || h.metrics().num_alive_tasks() == 0 && sockets_on(ip).is_empty() && rebind_failures(&adv).is_empty()).await;
+    let tcp = node.tcp_probe.clone();
+    let ok = wait_until(LOCAL_BOUND, || h.metrics().num_alive_tasks() == 0 && sockets_on(ip).is_empty() && rebind_failures(&adv).is_empty() && tcp_rebind_failures(&tcp).is_empty()).await;
     let tasks = h.metrics().num_alive_tasks();
     let mut socks = sockets_on(ip);
     socks.extend(rebind_failures(&adv).into_iter().map(|a| format!("cannot rebind {a}")));
+    socks.extend(tcp_rebind_failures(&tcp).into_iter().map(|a| format!("cannot rebind {a}")));
     out.notes.push(format!("{who} released in {} ms", t.elapsed().as_millis()));
     if !ok && std::env::var("C17_DIAG_RELEASE").is_ok() {
         let gone = wait_until(Duration::from_secs(40), || h.metrics().num_alive_tasks() == 0 && sockets_on(ip).is_empty()).await;
         out.notes.push(format!("DIAG {who}: tasks {tasks} sockets {socks:?} at 2 s; all gone={gone} after {} ms", t.elapsed().as_millis()));
     }
-    if !ok {
+    if !ok && only_shared_listener(cell, ip, &socks, &[], tasks) {
+        out.fail_global(SIG_F16, true, format!("2 s after close() and the drop of every handle the shared TCP listener of the single-port range is still bound ({socks:?}) and {tasks} task(s) are alive [{}{who}]", cell.coord()));
+    } else if !ok {
         if tasks != 0 {
             let m = format!("{tasks} task(s) of the connection are still alive 2 s after close() and the drop of every handle");
             if who.is_empty() {
@@ -1863,6 +2010,9 @@ async fn finish_subject(cell: &Cell, mut node: Node, t0: Instant, bound: Duratio
         if !detectable {
             after_calls(cell, &node, out, true).await;
         }
+        if node.state() == PeerConnectionState::Closed {
+            api_sweep(cell, &node, out, "after the final close()").await;
+        }
         if cell.late_channel & 4 != 0 && cell.mode == Mode::WebRtc && SKIP_DC_AFTER_CLOSE.load(Ordering::Relaxed) {
             out.skipped.push(SIG_DC_AFTER_CLOSE);
         } else if cell.late_channel & 4 != 0 && cell.mode == Mode::WebRtc {
@@ -1951,6 +2101,10 @@ async fn run_pair_cell(cell: Cell) -> Outcome {
     }
     out.labels.push(format!("caller:{}", ["runtime-task", "plain-thread", "plain-thread-after-runtime-shutdown", "spawn_blocking"][cell.caller_ctx() as usize]));
     out.labels.push(if cell.rt_handle { "runtime_handle:some".into() } else { "runtime_handle:none".into() });
+    if cell.mode == Mode::WebRtc {
+        out.labels.push(format!("ice-tcp:{}", ["none", "range+default-policy", "range+enabled", "range+passive-only", "single-port+default-policy", "single-port+enabled"][(cell.ice_tcp % 6) as usize]));
+        out.notes.push(format!("tcp sockets at phase: {:?}", sockets_on(rig.node(subject).ip).iter().filter(|x| x.starts_with("tcp")).collect::<Vec<_>>()));
+    }
     if cell.caller_ctx() == 2 {
         // the runtime that created the connection is shut down first
         let node = rig.node_mut(subject);
@@ -2404,7 +2558,7 @@ fn subject_addr_and_fp(offer: &SessionDescription) -> Result<(SocketAddr, Option
         let line = line.trim_end_matches('\r');
         if let Some(rest) = line.strip_prefix("a=candidate:") {
             let tok: Vec<&str> = rest.split_whitespace().collect();
-            if tok.len() >= 6 {
+            if tok.len() >= 6 && !tok[2].eq_ignore_ascii_case("tcp") {
                 if let (Ok(ip), Ok(port)) = (tok[4].parse::<IpAddr>(), tok[5].parse::<u16>()) {
                     addr = Some(SocketAddr::new(ip, port));
                 }
@@ -2419,7 +2573,7 @@ fn subject_addr_and_fp(offer: &SessionDescription) -> Result<(SocketAddr, Option
 
 async fn run_low_cell(cell: Cell) -> Outcome {
     let mut out = Outcome::default();
-    let mut s = match Node::new_opts(0, Mode::WebRtc, None, NodeOpts { blocked: cell.blocked, legacy_sip: false, rt_handle: cell.rt_handle }).await {
+    let mut s = match Node::new_opts(0, Mode::WebRtc, None, NodeOpts { blocked: cell.blocked, legacy_sip: false, rt_handle: cell.rt_handle, ice_tcp: cell.ice_tcp }).await {
         Ok(n) => n,
         Err(e) => {
             out.fail(&cell, "phase-not-reached", false, e);
@@ -2624,6 +2778,8 @@ const SIG_F13: &str = "tasks-leak@dtls-handshaking/close/webrtc";
 const SIG_DC_UNOPENED: &str = "dc-recv-never-returns-for-unopened-channel";
 const SIG_DC_AFTER_CLOSE: &str = "create_data_channel-after-close-recv-never-returns";
 static SKIP_DC_AFTER_CLOSE: AtomicBool = AtomicBool::new(false);
+const SIG_F16: &str = "shared-tcp-listener-outlives-its-last-connection";
+static SKIP_F16: AtomicBool = AtomicBool::new(false);
 static SKIP_PC_RECV: AtomicBool = AtomicBool::new(false);
 static SKIP_DC_UNOPENED: AtomicBool = AtomicBool::new(false);
 
@@ -2697,6 +2853,8 @@ fn matrix(ctx: &Ctx) -> Vec<Cell> {
     let media_trees = ctx.draw("matrix-media", n, &(0u8..3, any::<bool>()));
     // orthogonal application ops (own stream): late data channel points, caller context, runtime_handle
     let op_trees = ctx.draw("matrix-ops", n, &(0u8..8, any::<bool>(), 0u8..4, any::<bool>()));
+    // ICE TCP configuration (own stream)
+    let tcp_trees = ctx.draw("matrix-icetcp", n, &(0u8..6));
     let mut out = Vec::new();
     for r in 0..reps {
         for (i, (p, e, m, blocked)) in coords.iter().enumerate() {
@@ -2760,6 +2918,20 @@ fn matrix(ctx: &Ctx) -> Vec<Cell> {
             if *m != Mode::WebRtc {
                 late_channel = 0;
             }
+            let mut ice_tcp = tcp_trees[r * coords.len() + i].current();
+            if r == 0 {
+                // first pass: the six TCP configurations are spread evenly over the cells
+                ice_tcp = ((i as u64 + ctx.seed / 4) % 6) as u8;
+            }
+            if *m != Mode::WebRtc {
+                ice_tcp = 0;
+            }
+            if ice_tcp >= 4 && ctx.is_known(SIG_F16) {
+                // the single-port (shared listener) shape leaks in every cell while F16 is open: use the
+                // multi-port range with the same policy instead and count it
+                ctx.note_excluded(SIG_F16, 1);
+                ice_tcp -= 3;
+            }
             out.push(Cell {
                 phase: *p,
                 event: *e,
@@ -2772,6 +2944,7 @@ fn matrix(ctx: &Ctx) -> Vec<Cell> {
                 late_negotiated,
                 caller,
                 rt_handle,
+                ice_tcp,
                 media_mix,
                 legacy_sip,
                 subject_offerer,
@@ -2829,6 +3002,7 @@ fn race_strategy() -> impl Strategy<Value = Cell> {
             late_negotiated: false,
             caller: 0,
             rt_handle: false,
+            ice_tcp: if mode == Mode::WebRtc { (delay % 12).min(6) % 6 } else { 0 },
             media_mix: if mode == Mode::WebRtc { 0 } else { stall % 3 },
             legacy_sip: mode != Mode::WebRtc && delay % 2 == 1,
             subject_offerer: so || low,
@@ -3016,6 +3190,7 @@ pub fn run(ctx: &mut Ctx) {
     SKIP_PC_RECV.store(ctx.is_known(SIG_PC_RECV), Ordering::Relaxed);
     SKIP_DC_UNOPENED.store(ctx.is_known(SIG_DC_UNOPENED), Ordering::Relaxed);
     SKIP_DC_AFTER_CLOSE.store(ctx.is_known(SIG_DC_AFTER_CLOSE), Ordering::Relaxed);
+    SKIP_F16.store(ctx.is_known(SIG_F16), Ordering::Relaxed);
     let conc: usize = std::env::var("C17_CONC").ok().and_then(|s| s.parse().ok()).unwrap_or(16);
     let only = std::env::var("C17_ONLY").ok();
     let keep = |c: &Cell| only.as_ref().map(|o| c.coord().contains(o.as_str())).unwrap_or(true);
@@ -3055,6 +3230,10 @@ pub fn run(ctx: &mut Ctx) {
         let mut cells: Vec<Cell> = trees.iter().map(|t| t.current()).filter(|c| keep(c)).collect();
         for c in cells.iter_mut() {
             c.channels = clamp_channels(ctx, c.channels, c.phase, c.mode, c.low_peer());
+            if c.ice_tcp >= 4 && ctx.is_known(SIG_F16) {
+                ctx.note_excluded(SIG_F16, 1);
+                c.ice_tcp -= 3;
+            }
         }
         // A pair in which no event can end the connection on the current tree (each one is a known
         // "no terminal state" cell, or a remote event next to such a local one) fails the same way as the
